@@ -31,6 +31,42 @@ type internalHandler struct {
 	filter         any // Predicate function for filtering events
 	mu             sync.Mutex
 	executed       uint32 // For once handlers, atomically tracks if executed
+
+	// Turn-taking for async sequential handlers: a ticket is drawn in the
+	// publisher, so invocations run in the order the events were published
+	turnMu     sync.Mutex
+	turnCond   *sync.Cond
+	nextTicket uint64
+	serving    uint64
+}
+
+// takeTicket reserves the next turn of an async sequential handler
+func (h *internalHandler) takeTicket() uint64 {
+	h.turnMu.Lock()
+	defer h.turnMu.Unlock()
+	if h.turnCond == nil {
+		h.turnCond = sync.NewCond(&h.turnMu)
+	}
+	ticket := h.nextTicket
+	h.nextTicket++
+	return ticket
+}
+
+// waitTurn blocks until every earlier ticket has finished
+func (h *internalHandler) waitTurn(ticket uint64) {
+	h.turnMu.Lock()
+	for h.serving != ticket {
+		h.turnCond.Wait()
+	}
+	h.turnMu.Unlock()
+}
+
+// finishTurn lets the next ticket run
+func (h *internalHandler) finishTurn() {
+	h.turnMu.Lock()
+	h.serving++
+	h.turnCond.Broadcast()
+	h.turnMu.Unlock()
 }
 
 // PanicHandler is called when a handler panics
@@ -356,9 +392,19 @@ func PublishContext[T any](bus *EventBus, ctx context.Context, event T) {
 		if h.async {
 			wg.Add(1)
 			bus.wg.Add(1)
+			var ticket uint64
+			if h.sequential {
+				ticket = h.takeTicket()
+			}
 			go func(handler *internalHandler) {
 				defer wg.Done()
 				defer bus.wg.Done()
+
+				// Sequential async handlers process events in publish order
+				if handler.sequential {
+					handler.waitTurn(ticket)
+					defer handler.finishTurn()
+				}
 
 				// Check context before executing
 				select {
